@@ -115,7 +115,7 @@ func checkCmd(args []string) int {
 		c.RequiredProbes = []string{"tasks-interleaved", "shared-variable-with-spare-capacity", "shared-variable-in-reverse-order", "forced-switch-at-targeted-site", "race-build-run", "two-or-more-workers-live", "blocked:chan send", "files-with-multi-record-blocks"}
 		c.Phases = []simkit.Phase{
 			{Label: "sched-lib", BinKind: "sched", Bin: env("VERIF_SCHED_BIN", ""), Engine: "sched-lib", Runs: pick(12000, 500000), MaxSeconds: secs(30, 900), DetSample: int(pick(16, 128)), Samples: 2},
-			{Label: "sched-cli", Bin: bin, Engine: "sched-cli", Runs: pick(1500, 300000), MaxSeconds: secs(35, 1200), DetSample: int(pick(4, 32)), Samples: 2},
+			{Label: "sched-cli", Bin: bin, Engine: "sched-cli", Runs: pick(900, 300000), MaxSeconds: secs(30, 1200), DetSample: int(pick(4, 32)), Samples: 2},
 			{Label: "sched-lib-race", BinKind: "sched-race", Bin: env("VERIF_SCHED_RACE_BIN", ""), Engine: "sched-lib", Runs: pick(3000, 100000), MaxSeconds: secs(30, 900), Env: raceEnv, Samples: 1},
 		}
 	case "C20":
